@@ -218,6 +218,8 @@ pub fn profile(prop: u8, thorough: bool) -> Profile {
         }
         14 => {
             p.ops = with(p.ops, &[("eq", 10), ("clone", 8)]);
+            // == across hasher states, the degenerate and the specialised ones included
+            p.hashers = ALL_HASHERS;
         }
         15 => {
             p.ops = with(p.ops, &[("serde", 20), ("deser_seq", 14)]);
